@@ -114,6 +114,61 @@ def native_checks():
     return out
 
 
+def make_regex_char(spec):
+    """a regex literal holding one solver-chosen code point (pattern position and @@whitespace directive position): the generated parser carries the same
+    regex as the model.  The code point is a selector (the grammar has to be compiled and the source generated per value: both run natively)."""
+    import tatsu
+    from ..pegbody import GenParser, norm
+    lo = spec['lo']
+    cache = {}
+
+    def native(c):
+        ch = chr(c)
+        out = 'same'
+        for kind, g, texts in (('pattern', f"start: /a{ch}b/ $ ;\n", ['a' + ch + 'b', 'a b', 'a\tb', 'ab', 'a  b', 'a    b']),
+                               ('whitespace', f"@@whitespace :: /[_{ch}]+/\nstart: 'a' 'b' $ ;\n", ['a' + ch + 'b', 'a_b', 'a b', 'a\tb', 'ab', 'a    b'])):
+            try:
+                model = tatsu.compile(g, name='RC')
+            except Exception:  # noqa: BLE001
+                out = 'triv:grammar-rejected' if out == 'same' else out
+                continue            # not a grammar (the character ends the literal, is not a regex, ...): nothing to compare
+            try:
+                gen = GenParser(g, name='RC')
+            except Exception as e:  # noqa: BLE001
+                return False, 'generated-source-broken', [kind, c, type(e).__name__ + ': ' + str(e)[:80]]
+            for t in texts:
+                try:
+                    a = ('ok', norm(model.parse(t)))
+                except tatsu.exceptions.FailedParse:
+                    a = ('fail',)
+                b = gen.parse(t)
+                b = ('ok', norm(b[1])) if b[0] == 'ok' else ('fail',)
+                if a != b:
+                    return False, 'generated-regex-differs', [kind, c, t, a[0], b[0]]
+        return True, out, None
+
+    def body(args):
+        (a,) = args
+        if _tracing():
+            l, h = lo, spec['hi'] - 1
+            while l < h:
+                mid = (l + h) // 2
+                if a <= mid:
+                    h = mid
+                else:
+                    l = mid + 1
+            from crosshair.tracers import NoTracing
+            with NoTracing():
+                cache.clear()
+                cache[l] = r = native(l)
+                return r
+        return cache.get(a) or native(a)
+
+    body.explain = lambda args: f'code point {args[0]} ({chr(args[0])!r}) inside a regex literal: ' + repr(native(args[0]))
+    body.warm = [(lo,), (spec['hi'] - 1,)]
+    return body
+
+
 REUSE_GRAMMAR = "start: 'x' '+' ['a-'] $ ;\n"
 REUSE_GRAMMAR_XY = "start: 'x' 'y' $ ;\n"        # (alphanumeric neighbours: the one that shows a leaked nameguard setting)
 REUSE_SETTINGS = {'ignorecase': {'ignorecase': True}, 'nows': {'whitespace': ''}, 'namechars': {'namechars': '-'}, 'noguard': {'nameguard': False}, 'parseinfo_start': {'parseinfo': True}}
@@ -170,6 +225,11 @@ def plan(tier, seed):
             obs.append(Ob(name=f'reuse_after_{fs}_L{n}', factory='vt.props.c02:make_reuse_settings', spec={'first': fs, 'n': n, 'program': 'reuse'},
                           params=[(f'c{i}', 0, UNI) for i in range(n)], budget={2: 120, 3: 500, 4: 1500, 5: 3000}[n], group='reuse',
                           extra_pre='' if n < 5 else ' and '.join(f'c{i} < 128' for i in range(n))))
+    # one code point inside regex literals, through the generator and its source printer (selector; ASCII + Latin-1 in the quick tier)
+    step = 64
+    for lo in range(0, 0x100 if tier == 'quick' else 0x400, step):
+        obs.append(Ob(name=f'regex_char_{lo:04x}', factory='vt.props.c02:make_regex_char', spec={'lo': lo, 'hi': lo + step, 'program': 'regex-char'},
+                      params=[('c', lo, lo + step)], budget=400, group='regex-char', require_tags=('same',) if lo in (0x40,) else ()))
     core = [(n, r) for n, r in grammars.CORE if tier != 'quick' or n in CORE_QUICK]
     setts = ['default', 'noguard'] if tier == 'quick' else list(SETTINGS)
     for name, rules in core:
@@ -212,7 +272,8 @@ def plan(tier, seed):
         'explanation': 'Translation validation of the Python back-end: for each grammar the parser source produced by the real generator is loaded and executed '
                        'symbolically side by side with the in-memory model on a text of n symbolic code points, under the same parse-time settings; they must '
                        'agree on accept/reject, on failing with a parse error, and on the AST. Generated sources are also compiled (valid Python). One loaded parser '
-                       'OBJECT reused after failed and successful calls with per-call settings must then parse like the model without settings. Kernel: '
+                       'OBJECT reused after failed and successful calls with per-call settings must then parse like the model without settings. Regex literals (pattern and '
+                       '@@whitespace directive) holding one solver-selected code point are generated, loaded and compared with the model on texts around that character. Kernel: '
                        'safe_name on symbolic rule names.',
         'functions_encoded': ['tatsu.ngcodegen.ngparser_gen:PythonParserGenerator.* (run concretely to produce the source)', 'generated parser module (symbolic)', 'tatsu.parsing:Parser',
                               'tatsu.contexts.decorator.rule:rule', 'tatsu.contexts.ctxlib.choice|loop|loopsep|exp', 'tatsu.contexts.context:ParseContext.option/choice/optional/group/nameset/nameadd/result/loopopt/joinopt/gather*/skip_to',
